@@ -13,8 +13,9 @@ ID = 'C09'
 BOUNDS = {
     # plain: node bounds for forests without attributes (all leaf kinds); small: bound with the reduced leaf menu;
     # attrs: node bound for forests in which one element at a time carries each attribute set
-    'quick': dict(plain=3, small=0, attrs=2),
-    'thorough': dict(plain=4, small=5, attrs=3),
+    # bodies: node bound for the pass with the alternative comment / CDATA / PI / script / style / text bodies
+    'quick': dict(plain=3, small=0, attrs=2, bodies=3),
+    'thorough': dict(plain=4, small=5, attrs=3, bodies=3),
 }
 NSH = 64
 
@@ -25,14 +26,15 @@ def describe(tier):
         rule='E2xE4: all forests with <= %d nodes over leaf kinds %s and paired kinds %s%s; all forests with <= %d nodes in which one '
              'element at a time carries one of %d attribute sets; HTML and XML mode (void names are written as pairs in XML); every '
              'position 0..len; match, balanced_outward, balanced_inward. State = (document, mode, position); transition = caret +1 / '
-             'one more node. Forests with a comment / CDATA / PI / script / style / text node are also emitted with each of the '
+             'one more node. Forests with <= %d nodes that have a comment / CDATA / PI / script / style / text node are also emitted with each of the '
              'alternative bodies %s (terminator preceded by its own first character, empty body, body made of tag-opening '
              'characters).' % (b['plain'], D.LEAVES, D.PAIRED,
                                  '; <= %d nodes with leaf kinds %s' % (b['small'], D.LEAVES_SMALL) if b['small'] else '',
-                                 b['attrs'], len(D.ATTR_SETS), D.BODY_VARIANTS[1:]),
+                                 b['attrs'], len(D.ATTR_SETS), b['bodies'], D.BODY_VARIANTS[1:]),
         nontrivial='the position lies strictly inside at least one element.',
         bounds=b,
-        assumptions=['balanced_inward exactly at element boundaries and ill-formed documents are left unspecified (C16 covers totality)'],
+        assumptions=['the checked calls at every fourth position are preceded by %d x 3 calls on ill-formed documents in the other '
+                     'mode: history must not matter' % len(POISON), 'balanced_inward exactly at element boundaries and ill-formed documents are left unspecified (C16 covers totality)'],
         explanation='Every (document, position) is given to the real matcher functions and compared with the generator ground truth; '
                     'the enumeration count is cross-checked against the closed recurrence for forests.',
     )
@@ -47,7 +49,7 @@ def docs(tier):
     for f in docs0(tier):
         yield f, 0
     b = BOUNDS[tier]
-    for n in range(1, b['plain'] + 1):
+    for n in range(1, b['bodies'] + 1):
         for f in D.forests(n):
             if D.uses_body(f):
                 for v in range(1, len(D.BODY_VARIANTS)):
@@ -77,10 +79,25 @@ def exp_tuple(e):
     return (e['name'], tuple(e['open']), tuple(e['close']) if e['close'] else None)
 
 
+# calls on ill-formed documents made before the checked calls at every fourth position: nothing of them may survive
+POISON = [('<div a="', 3), ('<p><!-- x', 5), ('<a><script>if (a<b) <i>', 14), ('</b><c', 2), ('<![CDATA[ <x', 10), ("<e f='>", 4)]
+
+
+def poison(xml):
+    for text, p in POISON:
+        for f in (H.match, H.balanced_outward, H.balanced_inward):
+            try:
+                f(text, p, {'xml': not xml})
+            except Exception:
+                pass
+
+
 def check_pos(text, elements, xml, p):
     """-> list of (class, detail)"""
     bad = []
     opt = {'xml': xml}
+    if p % 4 == 0:
+        poison(xml)
     enc = D.enclosing(elements, p)
     # match
     try:
